@@ -240,3 +240,53 @@ Definition framed_inv_dac (cl : list N * list N) (st : state) : Prop :=
 (* update_parameters reaches exactly the generators the program uses *)
 Definition delivered_ok cm (chans : list N) (got : list N) : Prop :=
   NoDup got /\ forall a, In a got <-> uses_awg cm chans a = true.
+
+(* ================================================================================================================ *)
+(* Round 4: status per (name, device).  A pair (n, a) is "dirty" on the generator side when the members of the wiring of
+   a channel id used by n that sit ON generator a were changed since the last (re-)registration of n; likewise (n, d) on
+   the acquisition side for the (device, mask name) pairs on device d of a measurement name used by n.  A name that is
+   not lost keeps its routing clauses at every device at which it is not dirty (Props.C18_clean_at_histories /
+   C18_dclean_at_histories), even when it is "covered" because of a re-wiring on other devices. *)
+Definition on_awg (a : N) (l : list sch) : list sch := filter (fun s => N.eqb (s_awg s) a) l.
+Definition memNN (p : N * N) (l : list (N * N)) : bool :=
+  existsb (fun q => N.eqb (fst p) (fst q) && N.eqb (snd p) (snd q)) l.
+
+(* generators on which the members of the wiring of id differ between two channel maps *)
+Definition changed_gens (id : N) (cm cm' : list (N * list sch)) : list N :=
+  filter (fun a => negb (same_members sch_full_eqb (on_awg a (get_set id cm)) (on_awg a (get_set id cm'))))
+         (map s_awg (get_set id cm ++ get_set id cm')).
+
+(* dirty pairs (name, generator) after operation o executed in state st *)
+Definition ptrack_awg (dm : dims) (st : state) (o : op) (dl : list (N * N)) : list (N * N) :=
+  let (st', e) := step dm st o in
+  match o with
+  | OSetChannel id _ _ | ORmChannel id =>
+      flat_map (fun n => map (fun a => (n, a)) (changed_gens id (chmap st) (chmap st'))) (users_ch (regs st) id) ++ dl
+  | ORegister name _ _ _ _ => match e with None => filter (fun q => negb (N.eqb (fst q) name)) dl | Some _ => dl end
+  | ORemove name => filter (fun q => negb (N.eqb (fst q) name)) dl
+  | OClear => []
+  | _ => dl
+  end.
+
+Fixpoint prun (dm : dims) (st : state) (dl : list (N * N)) (h : list op) : list (N * N) :=
+  match h with [] => dl | o :: r => prun dm (fst (step dm st o)) (ptrack_awg dm st o dl) r end.
+
+Definition on_dac (d : N) (l : list mask) : list mask := filter (fun m => N.eqb (m_dac m) d) l.
+
+Definition changed_dacs (nm : N) (mm mm' : list (N * list mask)) : list N :=
+  filter (fun d => negb (same_members mask_route_eqb (on_dac d (get_set nm mm)) (on_dac d (get_set nm mm'))))
+         (map m_dac (get_set nm mm ++ get_set nm mm')).
+
+Definition ptrack_dac (dm : dims) (st : state) (o : op) (dl : list (N * N)) : list (N * N) :=
+  let (st', e) := step dm st o in
+  match o with
+  | OSetMeasurement nm _ _ =>
+      flat_map (fun n => map (fun d => (n, d)) (changed_dacs nm (mmap st) (mmap st'))) (users_meas (regs st) nm) ++ dl
+  | ORegister name _ _ _ _ => match e with None => filter (fun q => negb (N.eqb (fst q) name)) dl | Some _ => dl end
+  | ORemove name => filter (fun q => negb (N.eqb (fst q) name)) dl
+  | OClear => []
+  | _ => dl
+  end.
+
+Fixpoint prun_dac (dm : dims) (st : state) (dl : list (N * N)) (h : list op) : list (N * N) :=
+  match h with [] => dl | o :: r => prun_dac dm (fst (step dm st o)) (ptrack_dac dm st o dl) r end.
